@@ -105,7 +105,10 @@ RULE = ('grid: nensembles 1..8 x nprocesses 1..8 x noise_mode {single, flip} x e
         'result = zero-padded per-IMF mean of the public sift of those signals; zero noise = classic sift with the same cap. '
         'At a non-zero level no member sifts the bare input, no two members\' noise are rescaled / shifted / perturbed copies of one '
         'realisation (|correlation| >= 0.999), and (single mode) the result is not the classic sift; sifts of the bare input beside the '
-        'members (a warm-up run) are set aside; any other number of traced sifts is mechanism-level. '
+        'members (a warm-up run) are set aside; any other number of traced sifts is mechanism-level, EXCEPT (literal, flip mode, '
+        'non-negligible noise) when the sifted signals identify every member as a pair (x+nu, x-nu) or a lone x+nu whose x-nu was never '
+        'sifted and the result is not the mean over the members of the pair means, the missing -noise decompositions supplied by the '
+        'public sift (flip-member-without-minus-noise-run: seeded serial fast path for nprocesses == 1 that dropped noise_mode). '
         'complete_ensemble_sift additionally: per stage the members (residual +/- noise column) have pairwise distinct non-zero noise; the '
         'noise a member gets at a later fan-out is what is left of ITS OWN column (never column a minus the first mode of column b: '
         'scheduling dependent, nprocesses >= 2, replay cases repeat the call up to 6 times); zero noise = the columns of the classic sift; '
@@ -658,6 +661,54 @@ class Ensemble(_Base):
             return SKIP_UNATTRIBUTED
         return None
 
+    def _flip_lone_members(self, case, out, an):
+        """Flip mode, non-zero level, a number of traced sifts other than 2 * nensembles. Literal only when ALL of this
+        holds (else None - the run stays mechanism-level):
+          * the sifted signals other than the bare input fall into (x + nu, x - nu) pairs and lone signals x + nu whose
+            x - nu was never handed to the public sift, pairs + lone = nensembles (so every member is identified), at
+            least one lone member, every lone nu non-negligible (far above the comparison tolerance);
+          * the returned array is NOT the per-IMF zero-padded mean over the members of the pair means, the missing
+            -noise decompositions being supplied by the harness with the public sift (same cap / options): a rewrite
+            that makes the -noise run through a private core returns that mean and is not flagged.
+        Returns the failure detail."""
+        if an['scale'] <= 0 or out.get('cols') is None or out.get('error'):
+            return None
+        x, n, N = an['x'], len(an['x']), case['N']
+        cmp_tol = _msk.TOL * _amp(x, 6 * an['scale'])
+        S = [e['v'] for e in an['sig'] if float(np.max(np.abs(e['v'] - x))) > 1e-12 * max(_mag(x), 1e-300)]
+        if not S or len(S) >= 2 * N:
+            return None
+        d = [s - x for s in S]
+        pairs, lone = _pair_up(d, 1e-12 * max(_mag(x) + _mag(*d), 1e-300))
+        if not lone or len(pairs) + len(lone) != N or any(_msk.max_abs(d[i]) <= 1e3 * cmp_tol for i in lone):
+            return None
+        cols = [np.array(c) for c in out['cols']]
+        opts = _opts(case)
+        try:
+            traced = [_classic(s, case['cap'], opts) for s in S]
+            supplied = [_classic(x - d[i], case['cap'], opts) for i in lone]
+        except Exception:   # noqa  (non-convergence of the harness's own sifts: nothing is claimed)
+            return None
+        decs = traced + supplied          # mean over members of (a + b) / 2 = mean over all 2N decompositions, zero-padded
+        K = max(len(c) for c in decs)
+        want = _zero_padded_mean(n, decs, K)
+        if len(cols) == K:
+            dev = max(float(np.max(np.abs(cols[j] - want[j]))) for j in range(K))
+            if dev <= cmp_tol:
+                return None
+            how = 'deviates %.3g (tolerance %.3g) from' % (dev, cmp_tol)
+        else:
+            how = 'has %d columns, not the %d of' % (len(cols), K)
+        alone = _zero_padded_mean(n, [traced[i] for i in lone], max(len(traced[i]) for i in lone)) if len(lone) == N else None
+        note = ''
+        if alone is not None and len(alone) == len(cols) and \
+                max(float(np.max(np.abs(cols[j] - alone[j]))) for j in range(len(cols))) <= cmp_tol:
+            note = '; it IS the mean of the +noise decompositions alone'
+        return ('%d of the %d members: x + nu was sifted, x - nu never (noise amplitude %.3g, signal %.3g; %d signals sifted, '
+                'nprocesses=%d); the result %s the mean over the members of the +noise / -noise pair means recomputed with the '
+                'public sift%s' % (len(lone), N, max(_msk.max_abs(d[i]) for i in lone), _msk.max_abs(x), len(an['sig']),
+                                   case['nproc'], how, note))
+
     def holds(self, case, out):
         if isinstance(out, ImplError):
             # the tracer / harness failed (framework time-out, pickling of the trace): not the property's words
@@ -669,11 +720,18 @@ class Ensemble(_Base):
         # -- own noise realisation per member (needs the sifted signals; nothing traced = skipped and counted)
         if case['level'] > 0 and an['traceable'] and not out.get('error'):
             if not an['count_ok']:
-                # mechanism-level: HOW MANY calls of the public sift a run makes is not the property's subject (a
-                # member run through a private core, a retry, a probe run of another signal); sifts of the bare input
-                # were already set aside. The members cannot be told apart here, so nothing literal is claimed.
-                fs.append(Failure('wrong-number-of-member-sifts', '%d signals were sifted for nensembles=%d in %s mode (expected %d)'
-                                  % (len(an['sig']), N, case['mode'], an['expected']), literal=False))
+                lone = self._flip_lone_members(case, out, an) if flip else None
+                if lone is not None:
+                    # the property's own words: "in flip mode each member is itself the mean of the +noise and -noise
+                    # decompositions" - members whose x + nu was sifted, whose x - nu never was, AND a result that is
+                    # not the mean over the members of the pair means (so the -noise run was not made elsewhere either)
+                    fs.append(Failure('flip-member-without-minus-noise-run', lone))
+                else:
+                    # mechanism-level: HOW MANY calls of the public sift a run makes is not the property's subject (a
+                    # member run through a private core, a retry, a probe run of another signal); sifts of the bare input
+                    # were already set aside. The members cannot be told apart here, so nothing literal is claimed.
+                    fs.append(Failure('wrong-number-of-member-sifts', '%d signals were sifted for nensembles=%d in %s mode (expected %d)'
+                                      % (len(an['sig']), N, case['mode'], an['expected']), literal=False))
             elif an['members'] is None:
                 fs.append(Failure('flip-second-run-not-sign-flipped-noise',
                                   '%d of the %d sifted signals have no partner x - nu for their x + nu'
